@@ -1151,7 +1151,8 @@ pub struct ExUtf8Error(std::str::Utf8Error);
         },
         /*@L:scan_step_stays_within_the_line:C06*/ ret is Ok ==> consumed_clean(bytes@, ret->Ok_0.1@) && str_no_nl(ret->Ok_0.0),""")
     f.body_start("let ghost b0 = bytes@;\n    proof { lemma_find_first_allk(b0); reveal(first_hit); reveal(scan_facts); reveal(scan_raw); reveal(split_ok); reveal(sp_word); }\n")
-    mnl = re.search(r"if\s+!(\w+)\.is_empty\(\)\s*&&\s*is_newline\(&\1\[0\]\)", f.orig)
+    # the hint goes in front of the `if` whose condition looks at the first remaining byte (`.. is_newline(&rest[0]) ..`), whatever else the condition says
+    mnl = re.search(r"if\s+[^{};]*?is_newline\(&(\w+)\[0\]\)", f.orig)
     if not mnl:
         raise AnchorLost("parse_until_no_newline: the line-end test `if !rest.is_empty() && is_newline(&rest[0])` was not found")
     rv = mnl.group(1)
